@@ -1,12 +1,798 @@
-//! C09 - not implemented yet
-use crate::common::Report;
+//! C09 - type inference is sound for evaluation; well-typed programs never crash.
+//!
+//! Bounded-exhaustive exploration: for every primitive operation of `graphs::Operation`, every element of a
+//! parameter alphabet x every argument-type tuple of a type alphabet is offered to the real builder
+//! (`Graph::add_node`). Accepted nodes are finalized and evaluated with the real `SimpleEvaluator` on an input
+//! alphabet. Oracle: (1) no panic in builder or evaluator, (2) every node value has exactly the layout of the
+//! node's inferred type, (3) an accepted node evaluates on at least one input of the alphabet (which contains
+//! inputs built to satisfy the documented data preconditions).
+mod alpha;
+mod inputs;
 
-pub fn run(_r: &Report) -> i32 {
-    println!("MACHINERY-ERROR property=C09 check not implemented");
-    2
+use crate::common::{catch, hash_str, Report, SplitMix};
+use crate::exec::{new_eval, run_global, Plan, RealRandomness};
+use crate::vals;
+use alpha::{ArgSpace, Level, OpSpace};
+use ciphercore_base::data_types::Type;
+use ciphercore_base::data_values::Value;
+use ciphercore_base::evaluators::Evaluator;
+use ciphercore_base::graphs::{create_context, Context, Graph, Node, Operation};
+use rayon::prelude::*;
+use serde::{Deserialize, Serialize};
+use serde_json::{json, Value as J};
+use std::collections::BTreeMap;
+
+const EVAL_SEED: u64 = 0xC09;
+const CHUNK: u64 = 2048;
+
+#[derive(Clone, Debug, Serialize, Deserialize)]
+pub enum Arg {
+    /// k-th input of the program
+    In(usize),
+    /// result of the j-th step
+    Step(usize),
 }
 
-pub fn replay(_r: &Report, _rec: &serde_json::Value) -> i32 {
-    println!("MACHINERY-ERROR property=C09 replay not implemented");
-    2
+#[derive(Clone, Debug, Serialize, Deserialize)]
+pub struct Step {
+    pub op: Operation,
+    pub args: Vec<Arg>,
+    /// graph dependency of Call / Iterate
+    pub sub: Option<Box<Program>>,
+}
+
+/// inputs (valid types) followed by steps; the output is the last step
+#[derive(Clone, Debug, Serialize, Deserialize)]
+pub struct Program {
+    pub inputs: Vec<Type>,
+    pub steps: Vec<Step>,
+}
+
+fn op_name(op: &Operation) -> String {
+    format!("{}", op)
+}
+
+/// panic/error message without numbers and without the location prefix of the source tree
+fn stable(msg: &str) -> String {
+    let first = msg.lines().next().unwrap_or("");
+    let cut = match (first.find(" at /"), first.find("ciphercore-base/")) {
+        (Some(a), Some(b)) if b > a => format!("{} at {}", &first[..a], &first[b..]),
+        _ => first.to_string(),
+    };
+    let mut out = String::new();
+    let mut last_digit = false;
+    for c in cut.chars() {
+        if c.is_ascii_digit() {
+            if !last_digit {
+                out.push('#');
+            }
+            last_digit = true;
+        } else {
+            last_digit = false;
+            out.push(c);
+        }
+    }
+    out.chars().take(110).collect()
+}
+
+/// runtime-error message reduced to its constant head (up to the first ':' or ',')
+fn stable_err(msg: &str) -> String {
+    let first = msg.lines().next().unwrap_or("");
+    let cut = first.find(|c| c == ':' || c == ',').unwrap_or(first.len());
+    stable(&first[..cut])
+}
+
+/// coarse class of a never-evaluating case, so that different defects of one operation get different signatures
+fn never_eval_class(op: &Operation, in_types: &[Type]) -> &'static str {
+    match op {
+        Operation::CuckooHash if in_types.len() == 2 && in_types[0].is_array() && in_types[1].is_array() => {
+            let si = in_types[0].get_shape();
+            let sh = in_types[1].get_shape();
+            if si.len() >= 2 && sh.len() == 3 && sh[1] < 63 && si[si.len() - 2] > (1u64 << sh[1]) {
+                ":more-strings-than-table-slots"
+            } else {
+                ":strings-fit-table"
+            }
+        }
+        Operation::VectorGet => match in_types.first() {
+            Some(Type::Vector(0, _)) => ":empty-vector",
+            _ => ":non-empty-vector",
+        },
+        _ => "",
+    }
+}
+
+pub enum BuildOutcome {
+    /// the builder returned Err at this step (usize::MAX: while adding a declared input)
+    Rejected(usize, String),
+    /// the builder panicked at this step
+    Panicked(usize, String),
+    /// accepted, but the graph / context could not be finalized
+    FinalizeError(String),
+    Built(Built),
+}
+
+pub struct Built {
+    pub ctx: Context,
+    pub graph: Graph,
+    pub step_nodes: Vec<Node>,
+    pub has_sub: bool,
+}
+
+fn build_graph(ctx: &Context, p: &Program, subs: &[Option<Graph>]) -> Result<(Graph, Vec<Node>), BuildOutcome> {
+    let g = ctx.create_graph().map_err(|e| BuildOutcome::FinalizeError(format!("create_graph: {}", e)))?;
+    let mut ins = vec![];
+    for t in p.inputs.iter() {
+        match catch(|| g.input(t.clone())) {
+            Ok(Ok(n)) => ins.push(n),
+            Ok(Err(e)) => return Err(BuildOutcome::Rejected(usize::MAX, e.to_string())),
+            Err(m) => return Err(BuildOutcome::Panicked(usize::MAX, m)),
+        }
+    }
+    let mut nodes: Vec<Node> = vec![];
+    for (si, st) in p.steps.iter().enumerate() {
+        let deps: Vec<Node> = st
+            .args
+            .iter()
+            .map(|a| match a {
+                Arg::In(k) => ins[*k].clone(),
+                Arg::Step(j) => nodes[*j].clone(),
+            })
+            .collect();
+        let gdeps: Vec<Graph> = match subs.get(si).and_then(|x| x.clone()) {
+            Some(sg) => vec![sg],
+            None => vec![],
+        };
+        let op = st.op.clone();
+        match catch(|| g.add_node(deps, gdeps, op)) {
+            Ok(Ok(n)) => {
+                // the inferred type must be available for an accepted node
+                match catch(|| n.get_type()) {
+                    Ok(Ok(_)) => {}
+                    Ok(Err(e)) => return Err(BuildOutcome::FinalizeError(format!("get_type after add_node: {}", e))),
+                    Err(m) => return Err(BuildOutcome::Panicked(si, m)),
+                }
+                nodes.push(n)
+            }
+            Ok(Err(e)) => return Err(BuildOutcome::Rejected(si, e.to_string())),
+            Err(m) => return Err(BuildOutcome::Panicked(si, m)),
+        }
+    }
+    Ok((g, nodes))
+}
+
+pub fn build(p: &Program) -> BuildOutcome {
+    let ctx = match catch(create_context) {
+        Ok(Ok(c)) => c,
+        Ok(Err(e)) => return BuildOutcome::FinalizeError(format!("create_context: {}", e)),
+        Err(m) => return BuildOutcome::FinalizeError(format!("create_context panic: {}", m)),
+    };
+    // graph dependencies must exist (finalized) before the graph that uses them
+    let mut subs: Vec<Option<Graph>> = vec![];
+    let mut has_sub = false;
+    for (si, st) in p.steps.iter().enumerate() {
+        match &st.sub {
+            None => subs.push(None),
+            Some(sp) => {
+                has_sub = true;
+                let (sg, nodes) = match build_graph(&ctx, sp, &[]) {
+                    Ok(x) => x,
+                    Err(_) => return BuildOutcome::FinalizeError(format!("sub-graph of step {} is not buildable", si)),
+                };
+                let fin = catch(|| -> ciphercore_base::errors::Result<()> {
+                    sg.set_output_node(nodes.last().unwrap().clone())?;
+                    sg.finalize()?;
+                    Ok(())
+                });
+                match fin {
+                    Ok(Ok(())) => subs.push(Some(sg)),
+                    _ => return BuildOutcome::FinalizeError(format!("sub-graph of step {} cannot be finalized", si)),
+                }
+            }
+        }
+    }
+    let (g, nodes) = match build_graph(&ctx, p, &subs) {
+        Ok(x) => x,
+        Err(o) => return o,
+    };
+    if nodes.is_empty() {
+        return BuildOutcome::FinalizeError("program without steps".into());
+    }
+    let fin = catch(|| -> ciphercore_base::errors::Result<()> {
+        g.set_output_node(nodes.last().unwrap().clone())?;
+        g.finalize()?;
+        ctx.set_main_graph(g.clone())?;
+        ctx.finalize()?;
+        Ok(())
+    });
+    match fin {
+        Ok(Ok(())) => BuildOutcome::Built(Built { ctx, graph: g, step_nodes: nodes, has_sub }),
+        Ok(Err(e)) => BuildOutcome::FinalizeError(format!("finalize: {}", e)),
+        Err(m) => BuildOutcome::FinalizeError(format!("finalize panic: {}", m)),
+    }
+}
+
+/// types of the graph's Input nodes in node order (declared inputs first, then Input steps)
+fn graph_input_types(g: &Graph) -> Vec<Type> {
+    g.get_nodes()
+        .iter()
+        .filter_map(|n| if let Operation::Input(t) = n.get_operation() { Some(t) } else { None })
+        .collect()
+}
+
+pub enum RunOutcome {
+    /// values of all nodes (walk) or of the output only (graphs with Call / Iterate), with the node ids
+    Values(Vec<(usize, Value)>),
+    /// node id (usize::MAX: unknown) and message
+    Error(usize, String),
+    Panic(usize, String),
+}
+
+/// the real evaluator, whole context at once (the library's own graph walk)
+fn eval_whole(b: &Built, ins: &[Value]) -> Result<Value, (bool, String)> {
+    let mut ev = new_eval(EVAL_SEED);
+    let c = b.ctx.clone();
+    let v = ins.to_vec();
+    match catch(move || {
+        ev.preprocess(&c)?;
+        ev.evaluate_context(c, v)
+    }) {
+        Ok(Ok(v)) => Ok(v),
+        Ok(Err(e)) => Err((false, e.to_string().lines().next().unwrap_or("").to_string())),
+        Err(m) => Err((true, m)),
+    }
+}
+
+fn run_inputs(b: &Built, plan: Option<&Plan>, ins: &[Value]) -> RunOutcome {
+    match plan {
+        Some(pl) => {
+            let mut ev = new_eval(EVAL_SEED);
+            match run_global(pl, ins, &mut ev, &mut RealRandomness) {
+                Ok(vs) => RunOutcome::Values(vs.into_iter().enumerate().collect()),
+                Err((i, m)) => {
+                    if let Some(x) = m.strip_prefix("panic: ") {
+                        RunOutcome::Panic(i, x.to_string())
+                    } else {
+                        RunOutcome::Error(i, m.strip_prefix("error: ").unwrap_or(&m).to_string())
+                    }
+                }
+            }
+        }
+        None => match eval_whole(b, ins) {
+            Ok(v) => {
+                let out_id = b.step_nodes.last().unwrap().get_id() as usize;
+                RunOutcome::Values(vec![(out_id, v)])
+            }
+            Err((true, m)) => RunOutcome::Panic(usize::MAX, m),
+            Err((false, m)) => RunOutcome::Error(usize::MAX, m),
+        },
+    }
+}
+
+#[derive(Default, Clone)]
+struct OpStat {
+    attempted: u64,
+    accepted: u64,
+    rejected: u64,
+    runs_ok: u64,
+    runs_err: u64,
+}
+
+struct Viol {
+    sig: String,
+    what: String,
+    case: J,
+}
+
+#[derive(Default)]
+struct ChunkOut {
+    stats: BTreeMap<String, OpStat>,
+    counters: BTreeMap<&'static str, u64>,
+    viols: Vec<Viol>,
+    distinct: Vec<u64>,
+    samples: Vec<J>,
+    /// accepted programs with their output type (collected only when requested)
+    accepted: Vec<(Program, Type)>,
+}
+
+impl ChunkOut {
+    fn c(&mut self, k: &'static str, n: u64) {
+        *self.counters.entry(k).or_insert(0) += n;
+    }
+    fn viol(&mut self, sig: String, what: String, case: J) {
+        if std::env::var("VERIF_C09_DUMP").is_ok() {
+            eprintln!("DUMP [{}] {}", sig, what.replace(ciphercore_base::type_inference::NULL_HEADER, "NULL"));
+        }
+        if self.viols.iter().any(|v| v.sig == sig) {
+            self.c("violating_cases_dup", 1);
+            return;
+        }
+        self.viols.push(Viol { sig, what, case });
+    }
+}
+
+fn case_json(p: &Program, kind: &str, label: &str, ins: Option<&[Value]>) -> J {
+    json!({
+        "kind": kind,
+        "program": serde_json::to_value(p).unwrap_or(J::Null),
+        "input_label": label,
+        "inputs": ins.map(|v| v.iter().map(inputs::value_to_json).collect::<Vec<_>>()),
+        "eval_seed": EVAL_SEED,
+    })
+}
+
+fn describe(p: &Program) -> String {
+    let mut s = String::new();
+    for (i, st) in p.steps.iter().enumerate() {
+        if i > 0 {
+            s.push_str(" ; ");
+        }
+        let args: Vec<String> = st
+            .args
+            .iter()
+            .map(|a| match a {
+                Arg::In(k) => format!("{}", p.inputs[*k]),
+                Arg::Step(j) => format!("#{}", j),
+            })
+            .collect();
+        let mut opd = format!("{:?}", st.op);
+        if opd.len() > 160 {
+            opd.truncate(160);
+            opd.push_str("..");
+        }
+        s.push_str(&format!("{}({})", opd, args.join(", ")));
+    }
+    s
+}
+
+/// Builds and checks one program. `single`: the program is one operation applied to inputs (oracle 3 applies).
+fn check_program(p: &Program, single: bool, seed: u64, out: &mut ChunkOut, keep_accepted: bool, want_sample: bool) {
+    let last_op = op_name(&p.steps.last().unwrap().op);
+    let st_name = if single { last_op.clone() } else { "compose".to_string() };
+    out.stats.entry(st_name.clone()).or_default().attempted += 1;
+    out.c("programs_offered", 1);
+    let b = match build(p) {
+        BuildOutcome::Rejected(si, _) => {
+            if si == usize::MAX {
+                out.c("declared_input_rejected", 1);
+            }
+            out.stats.entry(st_name).or_default().rejected += 1;
+            out.c("rejected_by_builder", 1);
+            return;
+        }
+        BuildOutcome::Panicked(si, m) => {
+            let opn = if si == usize::MAX { "Input".to_string() } else { op_name(&p.steps[si].op) };
+            out.viol(
+                format!("C09:{}:panic:{}", opn, stable(&m)),
+                format!("builder panics while adding {}: {} [{}]", opn, m, describe(p)),
+                case_json(p, "builder-panic", "", None),
+            );
+            return;
+        }
+        BuildOutcome::FinalizeError(m) => {
+            out.c("finalize_errors", 1);
+            out.viol(
+                format!("C09:{}:accepted-but-not-finalizable:{}", last_op, stable(&m)),
+                format!("all nodes accepted but the graph cannot be finalized: {} [{}]", m, describe(p)),
+                case_json(p, "finalize-error", "", None),
+            );
+            return;
+        }
+        BuildOutcome::Built(b) => b,
+    };
+    out.stats.entry(st_name.clone()).or_default().accepted += 1;
+    out.c("accepted_programs", 1);
+    let key = serde_json::to_string(p).unwrap_or_default();
+    let h = hash_str(&key);
+    out.distinct.push(h);
+    let out_node = b.step_nodes.last().unwrap().clone();
+    let out_type = match out_node.get_type() {
+        Ok(t) => t,
+        Err(_) => return,
+    };
+    if keep_accepted {
+        out.accepted.push((p.clone(), out_type.clone()));
+    }
+    let plan = if b.has_sub {
+        None
+    } else {
+        match Plan::new(&b.graph) {
+            Ok(pl) => Some(pl),
+            Err(m) => {
+                out.c("plan_errors", 1);
+                out.viol(format!("C09:{}:plan-error", last_op), m, case_json(p, "plan-error", "", None));
+                return;
+            }
+        }
+    };
+    let node_types: Vec<Type> = b.graph.get_nodes().iter().map(|n| n.get_type().unwrap()).collect();
+    let node_ops: Vec<Operation> = b.graph.get_nodes().iter().map(|n| n.get_operation()).collect();
+    let in_types = graph_input_types(&b.graph);
+    let mut sm = SplitMix(seed ^ h ^ 0xC09C09);
+    let single_op = if single { Some(&p.steps[0].op) } else { None };
+    let alphabet = inputs::input_alphabet(&in_types, single_op, &mut sm);
+    let mut n_ok = 0u64;
+    let mut n_panics = 0u64;
+    let mut first_err: Option<(usize, String, String, Vec<Value>)> = None;
+    let mut crafted_ok = false;
+    let mut plain_ok = false;
+    for (label, ins) in alphabet.iter() {
+        // the harness's own inputs must fit the declared types
+        for (v, t) in ins.iter().zip(in_types.iter()) {
+            if !vals::layout_ok(v, t) {
+                out.c("harness_bad_input", 1);
+            }
+        }
+        out.c("evaluations", 1);
+        if label.starts_with("seeded") {
+            out.c("extra_seeded_cases", 1);
+        }
+        match run_inputs(&b, plan.as_ref(), ins) {
+            RunOutcome::Values(vs) => {
+                n_ok += 1;
+                out.stats.entry(st_name.clone()).or_default().runs_ok += 1;
+                if label.starts_with("crafted") {
+                    crafted_ok = true;
+                } else if !label.starts_with("seeded") {
+                    plain_ok = true;
+                }
+                for (id, v) in vs.iter() {
+                    out.c("node_values_checked", 1);
+                    let t = &node_types[*id];
+                    if !vals::layout_ok(v, t) {
+                        let opn = op_name(&node_ops[*id]);
+                        let lib = v.check_type(t.clone()).map(|x| x.to_string()).unwrap_or_else(|e| format!("Err({})", e));
+                        out.viol(
+                            format!("C09:{}:type-mismatch", opn),
+                            format!(
+                                "value of node {} ({}) does not have the layout of its inferred type {} (library check_type says {}) on input '{}' [{}]",
+                                id, opn, t, lib, label, describe(p)
+                            ),
+                            case_json(p, "type-mismatch", label, Some(ins)),
+                        );
+                    }
+                }
+                // cross-check of the node walk against the library's own graph walk (first input only)
+                if plan.is_some() && label == "zeros" {
+                    out.c("whole_graph_crosschecks", 1);
+                    let walked = vs.iter().find(|(id, _)| *id == out_node.get_id() as usize).map(|x| x.1.clone());
+                    match (eval_whole(&b, ins), walked) {
+                        (Ok(w), Some(v)) => {
+                            let (mut k1, mut k2) = (vec![], vec![]);
+                            vals::key(&w, &mut k1);
+                            vals::key(&v, &mut k2);
+                            if k1 != k2 {
+                                out.viol(
+                                    format!("C09:{}:evaluate_graph-differs-from-node-walk", last_op),
+                                    format!("evaluate_context and node-by-node evaluation give different outputs [{}]", describe(p)),
+                                    case_json(p, "walk-mismatch", label, Some(ins)),
+                                );
+                            }
+                        }
+                        (Err((is_panic, m)), _) => {
+                            let sig = if is_panic {
+                                format!("C09:{}:panic:{}", last_op, stable(&m))
+                            } else {
+                                format!("C09:{}:evaluate_graph-fails-where-node-walk-succeeds", last_op)
+                            };
+                            out.viol(
+                                sig,
+                                format!("evaluate_context fails ({}) although every node evaluates [{}]", m, describe(p)),
+                                case_json(p, "walk-mismatch", label, Some(ins)),
+                            );
+                        }
+                        _ => {}
+                    }
+                }
+            }
+            RunOutcome::Error(id, m) => {
+                out.stats.entry(st_name.clone()).or_default().runs_err += 1;
+                out.c("runtime_errors", 1);
+                if first_err.is_none() {
+                    first_err = Some((id, m, label.clone(), ins.clone()));
+                }
+            }
+            RunOutcome::Panic(id, m) => {
+                out.c("panics", 1);
+                n_panics += 1;
+                let opn = if id == usize::MAX { last_op.clone() } else { op_name(&node_ops[id]) };
+                out.viol(
+                    format!("C09:{}:panic:{}", opn, stable(&m)),
+                    format!("evaluator panics at node {} ({}) on input '{}': {} [{}]", id, opn, label, m, describe(p)),
+                    case_json(p, "panic", label, Some(ins)),
+                );
+            }
+        }
+    }
+    if n_ok > 0 {
+        out.c("programs_evaluated_ok", 1);
+        if crafted_ok && !plain_ok {
+            out.c("programs_ok_only_on_precondition_inputs", 1);
+        }
+    } else if let Some((id, m, label, ins)) = first_err {
+        out.c("programs_never_ok", 1);
+        // a program that panics is reported as such (oracle 1), not a second time by oracle 3
+        if single && n_panics == 0 {
+            let opn = if id == usize::MAX { last_op.clone() } else { op_name(&node_ops[id]) };
+            out.viol(
+                format!("C09:{}:accepted-but-never-evaluates:{}{}", opn, stable_err(&m), never_eval_class(&p.steps[0].op, &in_types)),
+                format!(
+                    "node accepted by the builder, but evaluation fails on all {} inputs of the alphabet (first: '{}': {}) [{}]",
+                    alphabet.len(), label, m, describe(p)
+                ),
+                case_json(p, "never-evaluates", &label, Some(&ins)),
+            );
+        }
+    }
+    if want_sample && out.samples.len() < 2 {
+        out.samples.push(json!({"program": describe(p), "output_type": format!("{}", out_type), "inputs_tried": alphabet.len(), "inputs_ok": n_ok}));
+    }
+}
+
+fn merge(r: &Report, total: &mut BTreeMap<String, OpStat>, co: ChunkOut, accepted: &mut Vec<(Program, Type)>) {
+    for (k, s) in co.stats {
+        let e = total.entry(k).or_default();
+        e.attempted += s.attempted;
+        e.accepted += s.accepted;
+        e.rejected += s.rejected;
+        e.runs_ok += s.runs_ok;
+        e.runs_err += s.runs_err;
+    }
+    for (k, n) in co.counters {
+        r.count(k, n);
+    }
+    for h in co.distinct {
+        r.distinct(h);
+    }
+    for s in co.samples {
+        r.sample(s);
+    }
+    for v in co.viols {
+        r.violation(&v.sig, &v.what, v.case);
+    }
+    accepted.extend(co.accepted);
+}
+
+/// Enumerates one operation space completely (chunks in parallel, merged in enumeration order).
+fn explore_space(
+    r: &Report,
+    sp: &OpSpace,
+    total: &mut BTreeMap<String, OpStat>,
+    keep_accepted: bool,
+    accepted: &mut Vec<(Program, Type)>,
+) {
+    let n = sp.size();
+    let nchunks = (n + CHUNK - 1) / CHUNK;
+    let seed = r.seed;
+    let outs: Vec<ChunkOut> = (0..nchunks)
+        .into_par_iter()
+        .map(|ci| {
+            let mut co = ChunkOut::default();
+            let lo = ci * CHUNK;
+            let hi = ((ci + 1) * CHUNK).min(n);
+            for idx in lo..hi {
+                let p = sp.program(idx);
+                check_program(&p, true, seed, &mut co, keep_accepted, ci == 0);
+            }
+            co
+        })
+        .collect();
+    for co in outs {
+        merge(r, total, co, accepted);
+    }
+}
+
+/// second halves of compositions: every case of every space in which one argument position is fed by the
+/// first program's output and the other positions range over the space's alphabets
+fn compositions_of(first: &Program, spaces: &[OpSpace], f: &mut dyn FnMut(Program)) {
+    let s0 = first.steps.len();
+    for sp in spaces.iter() {
+        let arities: Vec<(usize, Vec<std::sync::Arc<Vec<Type>>>)> = match &sp.args {
+            ArgSpace::Fixed(v) => vec![(v.len(), v.clone())],
+            ArgSpace::Variadic { min, max, alpha } => {
+                (*min..=*max).map(|a| (a, vec![alpha.clone(); a])).collect()
+            }
+        };
+        for (arity, alphas) in arities {
+            for pos in 0..arity {
+                // other positions: product
+                let others: Vec<usize> = (0..arity).filter(|q| *q != pos).collect();
+                let total: u64 = others.iter().map(|q| alphas[*q].len() as u64).product();
+                for (op, sub) in sp.params.iter() {
+                    if sub.is_some() {
+                        continue;
+                    }
+                    for mut idx in 0..total {
+                        let mut p = first.clone();
+                        let mut args = vec![Arg::Step(s0 - 1); arity];
+                        for q in others.iter().rev() {
+                            let n = alphas[*q].len() as u64;
+                            let t = alphas[*q][(idx % n) as usize].clone();
+                            idx /= n;
+                            p.inputs.push(t);
+                            args[*q] = Arg::In(p.inputs.len() - 1);
+                        }
+                        p.steps.push(Step { op: op.clone(), args, sub: None });
+                        f(p);
+                    }
+                }
+            }
+        }
+    }
+}
+
+/// anyhow captures a backtrace for every Err when RUST_BACKTRACE is set (millions of rejected nodes here):
+/// 4x the CPU time and a global lock. Library backtraces are of no use to the check.
+fn quiet_backtraces() {
+    std::env::set_var("RUST_LIB_BACKTRACE", "0");
+}
+
+pub fn run(r: &Report) -> i32 {
+    quiet_backtraces();
+    let level = if r.tier.thorough() { Level::Thorough } else { Level::Quick };
+    let spaces = alpha::op_spaces(level);
+    let mut total: BTreeMap<String, OpStat> = BTreeMap::new();
+    let mut sink = vec![];
+    let mut space_sizes = vec![];
+    for sp in spaces.iter() {
+        space_sizes.push(json!({"op": sp.name, "params": sp.params.len(), "arg_tuples": sp.args.size(), "cases": sp.size()}));
+        let t0 = r.elapsed();
+        explore_space(r, sp, &mut total, false, &mut sink);
+        if std::env::var("VERIF_C09_TIMING").is_ok() {
+            eprintln!("TIMING {} cases={} {:.2}s", sp.name, sp.size(), r.elapsed() - t0);
+        }
+    }
+    r.extra("spaces", J::Array(space_sizes));
+    r.count("single_operation_programs", r.get("programs_offered"));
+
+    let budget_s: f64 = std::env::var("VERIF_C09_BUDGET_S").ok().and_then(|s| s.parse().ok()).unwrap_or(480.0);
+    if r.tier.thorough() {
+        // all two-operation compositions over the reduced alphabets
+        let cspaces = alpha::op_spaces(Level::Compose);
+        let mut firsts: Vec<(Program, Type)> = vec![];
+        let mut scratch: BTreeMap<String, OpStat> = BTreeMap::new();
+        // the first halves are re-enumerated over the reduced alphabets (their verdicts are part of the run, too)
+        let before = r.get("programs_offered");
+        for sp in cspaces.iter() {
+            explore_space(r, sp, &mut scratch, true, &mut firsts);
+        }
+        r.count("compose_first_halves_offered", r.get("programs_offered") - before);
+        r.count("compose_first_halves_accepted", firsts.len() as u64);
+        let seed = r.seed;
+        let group = 8usize;
+        let mut done = 0usize;
+        for batch in firsts.chunks(group * 64) {
+            if r.elapsed() > budget_s {
+                r.cap_hit(&format!(
+                    "time budget {} s: compositions enumerated for {} of {} first operations",
+                    budget_s, done, firsts.len()
+                ));
+                break;
+            }
+            let outs: Vec<ChunkOut> = batch
+                .par_chunks(group)
+                .map(|fs| {
+                    let mut co = ChunkOut::default();
+                    for (fp, _ft) in fs {
+                        compositions_of(fp, &cspaces, &mut |p| {
+                            check_program(&p, false, seed, &mut co, false, false);
+                        });
+                    }
+                    co
+                })
+                .collect();
+            for co in outs {
+                merge(r, &mut total, co, &mut sink);
+            }
+            done += batch.len();
+        }
+        r.count("compose_first_halves_expanded", done as u64);
+    }
+
+    // per-operation table, coverage of the operation list
+    let mut per_op = serde_json::Map::new();
+    let mut missing = vec![];
+    let mut never_ok = vec![];
+    for name in alpha::ALL_OPS.iter() {
+        let s = total.get(*name).cloned().unwrap_or_default();
+        if s.accepted == 0 {
+            missing.push(name.to_string());
+        } else {
+            r.count("ops_with_accepted_case", 1);
+        }
+        if s.accepted > 0 && s.runs_ok == 0 {
+            never_ok.push(name.to_string());
+        } else if s.runs_ok > 0 {
+            r.count("ops_with_successful_evaluation", 1);
+        }
+    }
+    for (k, s) in total.iter() {
+        per_op.insert(
+            k.clone(),
+            json!({"offered": s.attempted, "accepted": s.accepted, "rejected": s.rejected, "runs_ok": s.runs_ok, "runs_runtime_error": s.runs_err}),
+        );
+    }
+    r.extra("per_operation", J::Object(per_op));
+    r.extra("operations_never_evaluated_successfully", json!(never_ok));
+    r.count("ops_enumerated", alpha::ALL_OPS.len() as u64);
+    if !missing.is_empty() {
+        println!("MACHINERY-ERROR property=C09 vacuous: no accepted case for operations {:?}", missing);
+        return 2;
+    }
+    if r.get("harness_bad_input") > 0 || r.get("declared_input_rejected") > 0 {
+        println!(
+            "MACHINERY-ERROR property=C09 harness inputs do not fit their types ({} values, {} declared inputs rejected)",
+            r.get("harness_bad_input"),
+            r.get("declared_input_rejected")
+        );
+        return 2;
+    }
+    r.finish(
+        "exploration",
+        "every primitive operation x parameter alphabet x argument-type tuples from the type alphabet (scalars, arrays rank 1-3 dims 1..3, \
+         tuples, named tuples, vectors incl. length 0, tables) offered to Graph::add_node; accepted programs are evaluated on \
+         {zeros, ones, max, iota, reversed iota, row-iota, precondition-satisfying inputs, 2 seed-derived}; thorough adds all \
+         two-operation compositions over reduced alphabets. evaluations = program executions; distinct = accepted programs",
+        true,
+        &[
+            "Custom operations are not primitive and are not enumerated; Call/Iterate are evaluated through evaluate_context only (output value checked)",
+            "oracle 3 (accepted implies evaluable) is applied to single-operation programs only; in compositions the data precondition of the second operation depends on the first",
+            "CuckooHash: benign inputs are row-distinct strings with structured/seeded hash matrices; a shape for which none of them hashes is reported",
+            "inputs and constants are clean encodings (no stray bits); the check is that the evaluator never produces values that do not fit the inferred type",
+        ],
+        &["evaluations", "accepted_programs", "rejected_by_builder", "node_values_checked", "runtime_errors", "ops_with_accepted_case", "whole_graph_crosschecks", "programs_ok_only_on_precondition_inputs"],
+    )
+}
+
+pub fn replay(r: &Report, rec: &serde_json::Value) -> i32 {
+    quiet_backtraces();
+    let case = &rec["case"];
+    let p: Program = match serde_json::from_value(case["program"].clone()) {
+        Ok(p) => p,
+        Err(e) => {
+            println!("MACHINERY-ERROR property=C09 cannot parse program: {}", e);
+            return 2;
+        }
+    };
+    let kind = case["kind"].as_str().unwrap_or("");
+    let sig = rec["signature"].as_str().unwrap_or("");
+    println!("replay C09 kind={} program: {}", kind, describe(&p));
+    println!("expected (property): builder rejects, or evaluation returns a value of the inferred type / a runtime error, never a panic; an accepted node evaluates on some input");
+    let seed = rec["seed"].as_u64().unwrap_or(r.seed);
+    if let BuildOutcome::Rejected(si, m) = build(&p) {
+        println!("observed: the builder rejects step {}: {}", si, m.lines().next().unwrap_or(""));
+    }
+    let mut co = ChunkOut::default();
+    check_program(&p, p.steps.len() == 1, seed, &mut co, false, false);
+    let mut hit = false;
+    for v in co.viols.iter() {
+        println!("observed: [{}] {}", v.sig, v.what);
+        if v.sig == sig || sig.is_empty() {
+            hit = true;
+        }
+    }
+    // additionally re-run the recorded input alone
+    if let Some(arr) = case["inputs"].as_array() {
+        let ins: Option<Vec<Value>> = arr.iter().map(inputs::json_to_value).collect();
+        if let (Some(ins), BuildOutcome::Built(b)) = (ins, build(&p)) {
+            let plan = if b.has_sub { None } else { Plan::new(&b.graph).ok() };
+            match run_inputs(&b, plan.as_ref(), &ins) {
+                RunOutcome::Values(vs) => {
+                    let (id, v) = vs.last().unwrap();
+                    let t = b.graph.get_nodes()[*id].get_type().unwrap();
+                    println!("recorded input '{}': output {} of inferred type {} layout_ok={}", case["input_label"].as_str().unwrap_or(""), vals::show(v, &t), t, vals::layout_ok(v, &t));
+                }
+                RunOutcome::Error(id, m) => println!("recorded input: runtime error at node {}: {}", id, m),
+                RunOutcome::Panic(id, m) => println!("recorded input: PANIC at node {}: {}", id, m),
+            }
+        }
+    }
+    if co.viols.is_empty() {
+        println!("observed: no violation");
+    }
+    if hit {
+        1
+    } else {
+        0
+    }
 }
